@@ -973,6 +973,11 @@ def rule_value_preserving(rep: Report, repo: Repo, modules=None):
                     what = f"`.{node.func.attr}(...)`"
                 elif nm in LOSSY:
                     what = f"`{nm}(...)`"
+                elif nm in ("np.diag", "np.diagflat", "sparse.diags", "sparse.diags_array") and node.args and (
+                        (isinstance(node.args[0], ast.Call) and isinstance(node.args[0].func, ast.Attribute) and node.args[0].func.attr == "diagonal")
+                        or (isinstance(node.args[0], ast.Call) and call_name(node.args[0]) in ("np.diag", "np.diagonal"))):
+                    # a matrix rebuilt from its own diagonal: every off-diagonal entry is dropped
+                    what = f"`{norm(node)[:60]}` (a matrix replaced by its diagonal part)"
             elif isinstance(node, ast.Attribute) and node.attr in ("real", "imag") and isinstance(node.ctx, ast.Load):
                 what = f"`.{node.attr}`"
             if what is None:
